@@ -88,6 +88,28 @@ theorem ph_cross (l : Line) (p : Pt) :
   rcases (Thick.ctxOf_valid l).ax with ⟨e1 | e1, e2 | e2⟩ | ⟨e1 | e1, e2 | e2⟩ <;> rw [e1, e2] <;>
     simp only <;> first | (left; ring1) | (right; ring1)
 
+
+/-- The same, with one sign for all points. -/
+theorem ph_cross_uniform (l : Line) :
+    (∀ p, (Thick.ctxOf l).ph p - (Thick.ctxOf l).ph l.start = 2 * cross l p) ∨
+    (∀ p, (Thick.ctxOf l).ph p - (Thick.ctxOf l).ph l.start = -(2 * cross l p)) := by
+  obtain ⟨hx, hy⟩ := strokeDir_eq l
+  have h := Thick.delta_decomp (Thick.paramLine l)
+  rw [Pt.ext_iff'] at h
+  simp only [Pt.sub_x, Pt.sub_y, Pt.add_x, Pt.add_y, Thick.smul_x, Thick.smul_y] at h
+  obtain ⟨hdx, hdy⟩ := h
+  have hx' : (strokeDir l).x =
+      (Thick.ctxOf l).D * (Thick.ctxOf l).M.x + (Thick.ctxOf l).d * (Thick.ctxOf l).m.x := by
+    rw [hx]; exact hdx
+  have hy' : (strokeDir l).y =
+      (Thick.ctxOf l).D * (Thick.ctxOf l).M.y + (Thick.ctxOf l).d * (Thick.ctxOf l).m.y := by
+    rw [hy]; exact hdy
+  unfold cross
+  rw [hx', hy']
+  unfold Thick.StrokeCtx.ph Thick.StrokeCtx.amaj Thick.StrokeCtx.amin
+  rcases (Thick.ctxOf_valid l).ax with ⟨e1 | e1, e2 | e2⟩ | ⟨e1 | e1, e2 | e2⟩ <;> rw [e1, e2] <;>
+    simp only <;> first | (left; intro p; ring1) | (right; intro p; ring1)
+
 theorem ph_sq (l : Line) (p : Pt) :
     ((Thick.ctxOf l).ph p - (Thick.ctxOf l).ph l.start) *
       ((Thick.ctxOf l).ph p - (Thick.ctxOf l).ph l.start) = 4 * cross l p ^ 2 := by
